@@ -148,7 +148,21 @@ def make_deck(ch, dims, skew, by_rpp, arr_mode):
     if cont == 'large-z' or dims == 3:
         d.add_surface(5, 'pz', [-7.5]); d.add_surface(6, 'pz', [6.5])
         e10 = ('*', e10, ('*', 5, -6))
-    d.add_cell(HCell(10, e10, fill=1))
+    inter = ch.choose('intermediate-universe', ['none', 'plain', 't', 'rz90'])
+    if inter == 'none':
+        d.add_cell(HCell(10, e10, fill=1))
+    else:
+        # container -> universe 4 -> lattice universe 1: the lattice sits at depth 2
+        c10 = HCell(10, e10, fill=4)
+        if inter == 't':
+            c10.filltr = Tr(refsem.Motion((0.5, -0.25, 0.0)), 'inline3')
+        elif inter == 'rz90':
+            m4 = refsem.Motion((0.5, -0.25, 0.0), refsem.rotation([0, 0, 1], 90.0).T)
+            d.trcards[6] = (m4, False); c10.filltr = Tr(m4, 'number', 6)
+        d.add_cell(c10)
+        d.add_surface(61, 'px', [3.3])
+        d.add_cell(HCell(40, -61, fill=1, u=4))
+        d.add_cell(HCell(41, 61, mat=2, rho='-7.8', u=4))
     d.add_cell(HCell(19, ('^', 10), imp=ch.choose('imp19', [1, 0])))
     d.add_cell(lat)
     # filler universes (asymmetric about the element)
